@@ -3,6 +3,7 @@ C18 - property theorems: the only shared mutable state is the feature-detection 
 on it is benign.
 -/
 import B3.Proofs.Conc
+import B3.Gen.Listings
 namespace B3.Props.C18
 open B3.Conc
 
@@ -18,6 +19,11 @@ theorem all_threads_agree (f n : Nat) (sched : List Nat) (r : Nat)
     (h : Th.done r ∈ (sched.foldl (stepTh f) { cell := none, threads := List.replicate n .start }).threads) : r = f := by
   have := (detect_cache_race_benign f n sched).2 _ h
   simpa using this
+
+/-- the C library's `get_cpu_features()` follows exactly the protocol modelled above: one load of
+the cache, then (if undefined) detection and ONE store of the detected value - no provisional value
+is ever stored (listing regenerated from c/blake3_dispatch.c on every run) -/
+theorem c_detection_follows_protocol : Gen.Listings.cDetectAccesses = ["load", "store features"] := rfl
 
 /-- non-vacuity: two threads, both load before either stores -/
 example : ([0, 1, 0, 1].foldl (stepTh 7) { cell := none, threads := List.replicate 2 .start }).threads = [.done 7, .done 7] := by
